@@ -14,17 +14,17 @@ import (
 
 var c06PWs = []string{
 	"Passw0rd!A", "Passw0rd!A", "Passw0rd!B", "Passw0rd!AB", "Passw0rd!",
-	"Aa1!" + strings.Repeat("x", 67), // 71 bytes
-	"Aa1!" + strings.Repeat("x", 68), // 72 bytes
-	"Aa1!" + strings.Repeat("x", 69), // 73 bytes: bcrypt refuses to hash it
+	"Aa1!" + strings.Repeat("x", 67),          // 71 bytes
+	"Aa1!" + strings.Repeat("x", 68),          // 72 bytes
+	"Aa1!" + strings.Repeat("x", 69),          // 73 bytes: bcrypt refuses to hash it
 	"Aa1!" + strings.Repeat("x", 68) + "tail", // 76 bytes, same first 72 as the 72-byte one
 	"Pw1!Pw1!", "Pw1!Pw1!\x00Pw1!Pw1!", // bcrypt-equivalent pair
 	"Passw0rd!\x00A", "Pässw0rd!Ä", "パスワードAa1!", "Passw0rd!a",
 }
 
 type monC06 struct {
-	pw     map[string]string   // pid -> model password
-	hashes map[string][]string // pid|canon -> hashes seen
+	pw      map[string]string   // pid -> model password
+	hashes  map[string][]string // pid|canon -> hashes seen
 	changes int
 }
 
